@@ -102,6 +102,38 @@ func checkC02(c *Ctx) {
 		progs = append(progs, p)
 		shapes = append(shapes, "rand/"+featureKey(g.features))
 	}
+	// 每当 re-tests its condition before every pass, whatever form the condition takes: a call whose
+	// result is bound with 得到 is a condition like any other (hand-written expected outcomes)
+	{
+		type hp struct{ name, src, wantVal, wantDisplay string }
+		cnt := "定义计：\n\t其数 = 0\n\t如何增？\n\t\t其数 = 其数 + 1\n\t\t输出 其数 < 4\n令器 = （新建计）\n"
+		hps := []hp{
+			{"while-cond/yield-of-object-call", cnt + "每当 以器（增）得到果：\n\t（显示：“pass”、果、器之数）\n输出 器之数\n", "num(4)", "pass 真 1\npass 真 2\npass 真 3\n"},
+			{"while-cond/yield-of-call-with-break", "如何恒真？\n\t输出 真\n令次 = 0\n每当 （恒真），得到果：\n\t次 = 次 + 1\n\t如果 次 >= 3：\n\t\t结束循环\n输出 次\n", "num(3)", ""},
+			{"while-cond/yield-with-continue", cnt + "每当 以器（增）得到果：\n\t如果 器之数 == 2：\n\t\t继续循环\n\t（显示：器之数）\n输出 器之数\n", "num(4)", "1\n3\n"},
+			{"while-cond/yield-in-method", cnt + "如何跑？\n\t输入物\n\t每当 以物（增）得到果：\n\t\t如果 物之数 == 3：\n\t\t\t输出 “三”\n\t输出 “完”\n输出（跑：器）\n", `text("三")`, ""},
+			{"while-cond/yield-name-gone-after", cnt + "每当 以器（增）得到果：\n\t令甲 = 1\n令果 = 5\n输出 果\n", "num(5)", ""},
+			{"while-cond/yield-nested-loops", cnt + "令和 = 0\n以项遍历【1，2】：\n\t令内 = （新建计）\n\t每当 以内（增）得到果：\n\t\t和 = 和 + 项\n输出 和\n", "num(9)", ""},
+		}
+		hreqs := []Req{}
+		for _, h := range hps {
+			hreqs = append(hreqs, execReq(h.src))
+		}
+		c.runBatches(hreqs, 10, func(r int, req *Req, resp *Resp) {
+			c.Eval()
+			h := hps[r]
+			c.Nontrivial("hand|" + h.name + "|" + resp.Kind)
+			got := resp.Kind
+			if resp.Kind == "value" && resp.Val != nil {
+				got = resp.Val.String()
+			} else if resp.Kind == "error" && resp.Err != nil {
+				got = fmt.Sprintf("error:%d", resp.Err.Code)
+			}
+			if got != h.wantVal || resp.Display != h.wantDisplay {
+				c.Violation("hand:"+h.name, fmt.Sprintf("%s: outcome %s %v display %q, expected %s display %q\nprogram:\n%s", h.name, got, resp.Err, resp.Display, h.wantVal, h.wantDisplay, h.src), map[string]interface{}{"req": req})
+			}
+		})
+	}
 	var inputs []map[string]Val
 	// every other program is rendered in a random licensed layout (synonymous spellings, comments,
 	// separators - also after the last statement -, line ends, multi-line literals): the control
